@@ -1025,6 +1025,58 @@ where
             break;
         }
     }
+    // Targeted scenario (C08): the only way the mask update of an insert can unwind is an index
+    // beyond the bit set's range; the value written just before must then be taken back out.
+    let mut big_index_probe = 0u64;
+    if failure.is_none() && !cfg!(miri) && cfg.extra_u64("bigid", 1) == 1 && !C::NAME.contains("Default") && rng.chance(1, 6) {
+        let r: R = (|| {
+            trace::set_ctx("C08");
+            let big = st.w().entities().entity((1u32 << 24) + 1 + rng.below(3) as u32);
+            if !st.w().entities().is_alive(big) {
+                return Ok(()); // unchecked handle no longer accepted: scenario not reachable
+            }
+            let before = ledger::undropped().into_iter().filter(|x| x.2 == ledger::Loc::World).count();
+            let (zb, zd) = ledger::zst_balance();
+            let p = st.p();
+            let drv = Drv::<C>(std::marker::PhantomData);
+            let res = {
+                let world = st.world.as_ref().unwrap();
+                std::panic::catch_unwind(std::panic::AssertUnwindSafe(|| drv.access(world, big, Path::Insert, p)))
+            };
+            st.log(format!("insert at out-of-range index {} -> {}", big.id(), if res.is_err() { "panicked".to_string() } else { format!("{:?}", res) }));
+            match res {
+                Err(_) => {
+                    big_index_probe = 1;
+                    let after = ledger::undropped().into_iter().filter(|x| x.2 == ledger::Loc::World).count();
+                    if after != before {
+                        return Err(("C08", format!("{}: the insertion unwound while updating the mask, but the value written to the storage was not taken out again ({} values alive in the world before, {} after)", C::NAME, before, after)));
+                    }
+                    let (zb2, zd2) = ledger::zst_balance();
+                    if C::IS_ZST && (zb2 - zd2) != (zb - zd) {
+                        return Err(("C08", format!("{}: the insertion unwound while updating the mask, but the zero-sized value was not released", C::NAME)));
+                    }
+                }
+                Ok(Out::InsOk(None, s)) => {
+                    // accepted (bit set grew): treat as a normal member and take it out again
+                    let out = drv.access(st.w(), big, Path::Remove, 0);
+                    if out != Out::Found(s) {
+                        return Err(("C04", format!("{}: value inserted at index {} could not be removed again: {:?}", C::NAME, big.id(), out)));
+                    }
+                }
+                Ok(other) => return Err(("C04", format!("{}: unexpected result of insert at index {}: {:?}", C::NAME, big.id(), other))),
+            }
+            // drain the events this produced, they are not part of any window
+            if let Some(r) = st.reader.as_mut() {
+                let s = st.world.as_ref().unwrap().read_storage::<C>();
+                let _ = C::read_events(&s, r);
+                st.replay_valid = false;
+            }
+            st.full_check()
+        })();
+        if let Err(f) = r {
+            failure = Some((f, nops + 1));
+        }
+    }
     if failure.is_none() {
         let r: R = (|| {
             st.full_check()?;
@@ -1066,6 +1118,7 @@ where
     rep.bump("get_other_mut_on_stale_occupied", st.get_other_mut_stale);
     rep.bump("stale_probes_on_occupied_index", st.stale_occupied);
     rep.bump("members_on_layer_boundaries", st.boundary_indices);
+    rep.bump("mask_update_unwound_probes", big_index_probe);
     rep.max("max_modified_multiplicity", st.modified_multiplicity_max);
     rep.bump(&format!("shape_{}", shape), 1);
     for h in &st.hist {
